@@ -127,7 +127,7 @@ def gen_config(rng, size="small", uniform=None):
         alt = [rng.choice([0.0, 0.0, 90000.0, rng.uniform(15000, 90000)]) for _ in range(nw)]
         gs = [[rng.choice([0.0, rng.uniform(-60, 60)]), rng.choice([0.0, rng.uniform(-60, 60)])] for _ in range(nw)]
     nl = rng.choice([1, 1, 2, 3]) if size == "small" else rng.randint(1, 4)
-    layers = [{"h": rng.choice([0.0, rng.uniform(0, 12000)]), "r0": rng.uniform(0.05, 1.0), "L0": rng.choice([rng.uniform(5, 100), rng.uniform(5, 100), rng.uniform(1, 5)])} for _ in range(nl)]   # incl. outer scales below the pupil size
+    layers = [{"h": rng.choice([0.0, rng.uniform(0, 12000)]), "r0": rng.uniform(0.05, 1.0), "L0": rng.choice([rng.uniform(5, 100), rng.uniform(5, 100), rng.uniform(5, 100), rng.uniform(1, 5), rng.loguniform(1e3, 1e5)])} for _ in range(nl)]   # incl. outer scales below the pupil size and near-Kolmogorov ones (km and more)
     maxn = max(max(len(MASKS[m]), len(MASKS[m][0])) for m in mk)
     D = maxn * max(d)
     wvl = [rng.choice([500e-9, rng.uniform(4e-7, 2e-6)]) for _ in range(nw)]
@@ -148,10 +148,60 @@ def build(cfg, threads=1):
     # "pad_layers": the layer profile arrays may be longer than n_layers (only the first n_layers layers count)
     pad = [{"h": 7000.0 + 900.0 * q, "r0": 0.31, "L0": 21.0} for q in range(int(cfg.get("pad_layers", 0)))]
     prof = list(cfg["layers"]) + pad
-    return sc.CovarianceMatrix(nw, masks, cfg["D"], numpy.array(cfg["d"], dtype=float), numpy.array(cfg["alt"], dtype=float),
-                               numpy.array(cfg["gs"], dtype=float), numpy.array(cfg["wvl"], dtype=float), len(cfg["layers"]),
-                               numpy.array([l["h"] for l in prof]), numpy.array([l["r0"] for l in prof]),
-                               numpy.array([l["L0"] for l in prof]), threads=threads)
+    # how the caller happens to hold the parameters: float64 arrays (default), float32 arrays, or plain Python lists
+    kind = cfg.get("param_kind")
+    if kind == "float32":
+        arr = lambda x: numpy.array(x, dtype=numpy.float32)
+    elif kind == "list":
+        arr = lambda x: [([float(v) for v in y] if isinstance(y, (list, tuple)) else float(y)) for y in x]
+    else:
+        arr = lambda x: numpy.array(x, dtype=float)
+    gs_ = numpy.array(cfg["gs"], dtype=float) if kind != "float32" else numpy.array(cfg["gs"], dtype=numpy.float32)
+    return sc.CovarianceMatrix(nw, masks, cfg["D"], arr(cfg["d"]), arr(cfg["alt"]),
+                               gs_, arr(cfg["wvl"]), len(cfg["layers"]),
+                               arr([l["h"] for l in prof]), arr([l["r0"] for l in prof]),
+                               arr([l["L0"] for l in prof]), threads=threads)
+
+
+REUSE_ATTRS = ["subap_diameters", "wfs_wavelengths", "telescope_diameter", "gs_altitudes", "gs_positions", "layer_altitudes", "layer_r0s", "layer_L0s"]
+
+
+def perturbed(cfg, rng):
+    """another configuration of the same system (same masks and layer count): re-pointed guide stars, other layer heights,
+    strengths and outer scales, other sub-aperture size / telescope diameter, other wavelengths"""
+    c = dict(cfg)
+    f = rng.uniform(0.7, 1.4)
+    c["d"] = [d * f for d in cfg["d"]]; c["D"] = cfg["D"] * f
+    c["gs"] = [[g[0] + rng.uniform(-15, 15), g[1] + rng.uniform(-15, 15)] for g in cfg["gs"]]
+    c["wvl"] = [w * rng.uniform(0.8, 1.3) for w in cfg["wvl"]]
+    c["layers"] = [{"h": l["h"] * rng.uniform(0.6, 1.5) + rng.choice([0.0, 800.0]), "r0": l["r0"] * rng.uniform(0.6, 1.5), "L0": l["L0"] * rng.uniform(0.7, 1.4)} for l in cfg["layers"]]
+    if rng.random() < 0.5 and any(a != 0 for a in cfg["alt"]):
+        c["alt"] = [a * 1.2 for a in cfg["alt"]]
+    return c
+
+
+def reuse_error(cfgA, cfgB, threads=(1, 1), how="replace"):
+    """an object built for cfgA, computed, then given cfgB's parameters through its public attributes (replaced by new arrays,
+    or written element-wise into the arrays it holds) and computed again, must give exactly what a fresh object for cfgB gives.
+    Returns (max abs difference / scale, matrix of the re-used object)"""
+    with warnings.catch_warnings():
+        warnings.simplefilter("ignore")
+        cm = build(cfgA, threads[0]); cm.make_covariance_matrix()
+        fresh = build(cfgB, threads[1])
+        for a in REUSE_ATTRS:
+            v = getattr(fresh, a)
+            if how == "inplace" and isinstance(getattr(cm, a), numpy.ndarray) and getattr(cm, a).shape == numpy.shape(v):
+                getattr(cm, a)[...] = v
+            else:
+                setattr(cm, a, numpy.array(v, copy=True) if isinstance(v, numpy.ndarray) else v)
+        cm.threads = threads[1]
+        M2 = numpy.array(cm.make_covariance_matrix(), dtype=float, copy=True)
+        Mf = numpy.array(fresh.make_covariance_matrix(), dtype=float, copy=True)
+    if M2.shape != Mf.shape:
+        return float("inf"), M2
+    same = numpy.array_equal(M2, Mf, equal_nan=True)
+    sc_ = float(numpy.nanmax(numpy.abs(Mf))) if numpy.isfinite(Mf).any() else 1.0
+    return (0.0 if same else float(numpy.nanmax(numpy.abs(M2 - Mf)) / max(sc_, 1e-300) + 1e-30)), M2
 
 
 def coq_cfg(cfg):
